@@ -62,6 +62,7 @@ pub struct Machine<'p> {
     pub ran_off_end: bool,
     /// total number of array elements allocated so far
     pub heap_cells: u64,
+    pub frame_cells: u64,
 }
 
 impl<'p> Machine<'p> {
@@ -128,6 +129,7 @@ impl<'p> Machine<'p> {
             touched: None,
             ran_off_end: false,
             heap_cells: 0,
+            frame_cells: 0,
         })
     }
 
@@ -434,6 +436,13 @@ impl<'p> Machine<'p> {
     }
 
     fn enter(&mut self, method: usize, locals: Vec<V>, ret: Ret) {
+        // memory guard: frames with tens of thousands of locals in deep recursion are not judged
+        self.frame_cells = self.frames.iter().map(|f| f.locals.len() as u64).sum::<u64>() + locals.len() as u64;
+        if self.frame_cells > (1 << 22) || self.frames.len() > 200_000 {
+            self.ip = None;
+            self.status = Status::Ambiguous("frames too large for the reference machine".into());
+            return;
+        }
         let base = self.stack.len();
         self.frames.push(Frame { locals, ret, base });
         if self.code(method).is_empty() {
